@@ -1075,3 +1075,23 @@ func PanicSite(msg string) string {
 	}
 	return "?"
 }
+
+// Goroutines returns the stacks of all goroutines that mention the given text
+// (witness material for a call that never returns).
+func Goroutines(mention string) string {
+	buf := make([]byte, 4<<20)
+	buf = buf[:runtime.Stack(buf, true)]
+	var out []string
+	for _, g := range strings.Split(string(buf), "\n\n") {
+		if strings.Contains(g, mention) {
+			if len(g) > 3000 {
+				g = g[:3000]
+			}
+			out = append(out, g)
+		}
+	}
+	if len(out) > 12 {
+		out = out[:12]
+	}
+	return strings.Join(out, "\n\n")
+}
